@@ -117,6 +117,7 @@ type TParam struct {
 	Constraint *T     // nil = any
 	CKind      string // any, method, union, depunion, depmethod, ordered, comparable, tildeSliceOf, hybrid, namedunion
 	Comparable bool   // usable as a map key
+	Arg        *T     // a concrete type argument satisfying the constraint (used by the runtime drivers)
 }
 
 // Iface is a generated interface declaration.
@@ -250,6 +251,7 @@ func NewTree(seed int64, prof Profile, hz Hazards) *Tree {
 	b.makeDeps()
 	b.makeLocals()
 	b.makeIfaces()
+	b.addFixed()
 	b.render()
 	return t
 }
